@@ -290,6 +290,8 @@ def check_C04(c):
     c.model("ClientConn", "ClientConn.abl_HijackOnBroadcast.cfg", must="fail", expect="Deadlock", note="broadcastErr does not hijack the channel: a later send error blocks on the full channel")
     c.model("ClientConn", "ClientConn.abl_SendErrDelivered.cfg", must="fail", expect="Deadlock", note="send error not delivered: the caller waits forever")
     c.model("ClientConn", "ClientConn.abl_DeleteOnGet.cfg", must="fail", expect="Inv_C04_NotifiedOnce", note="getChannel does not delete: notified twice")
+    c.model("ClientConn", "ClientConn.halfopen.cfg", note="the same on a transport whose Close does not stop writes (half-open link): a caller arriving during / after the broadcast is still refused")
+    c.model("ClientConn", "ClientConn.abl_AtomicPutCheck.cfg", must="fail", expect="Deadlock", note="putChannel looks at `closed` outside the mutex: on a half-open link a caller registers after the broadcast and waits forever")
     c.model("ClientConn", "ClientConn.abl_SendErrToRegistered.cfg", must="fail", note="a failed write reported on the caller's own channel: it may already hold the broadcast result (blocked sender or second notification)")
     path, crashed = run_crashy(c, "TestVerif_ConnLoss", timeout=3000)
     for cr in crashed:
